@@ -183,6 +183,30 @@ Theorem C19_strip_of_coloured_pretty_is_plain_pretty : forall w st m, no_esc_msg
 Proof. exact strip_pretty. Qed.
 Print Assumptions C19_strip_of_coloured_pretty_is_plain_pretty.
 
+(* ---- several PrettyFormatter objects in one process (two sub-pipelines each with formatPretty(), a
+   second Logger, a re-configuration): the thread numbering and the category column belong to the
+   OBJECT.  [multi cfgs ops] runs the deliveries ops = (object number, message) in order ---- *)
+(* the records of one object are those of one fresh formatter run over the messages delivered to IT *)
+Theorem C19_pretty_object_output_is_function_of_own_sequence : forall cfgs ops k c w,
+  nth_error cfgs k = Some (c, w) ->
+  out_of k (multi cfgs ops) = pretty_seq c w p0 (seen_by k ops).
+Proof. exact multi_object_own_sequence. Qed.
+Print Assumptions C19_pretty_object_output_is_function_of_own_sequence.
+(* what the other objects were given, and in which interleaving, does not matter *)
+Theorem C19_pretty_objects_independent : forall cfgs ops ops' k,
+  (k < List.length cfgs)%nat -> seen_by k ops = seen_by k ops' ->
+  out_of k (multi cfgs ops) = out_of k (multi cfgs ops').
+Proof. exact multi_object_independent. Qed.
+Print Assumptions C19_pretty_objects_independent.
+(* the extracted oracle evaluated on the library's records says exactly that, and the model passes it *)
+Theorem C19_pretty_objects_oracle_sound : forall cfgs ops outs, prop_multi_b cfgs ops outs = true ->
+  forall k c w, nth_error cfgs k = Some (c, w) -> out_of k outs = pretty_seq c w p0 (seen_by k ops).
+Proof. exact multi_oracle_sound. Qed.
+Print Assumptions C19_pretty_objects_oracle_sound.
+Theorem C19_pretty_objects_model_satisfies_oracle : forall cfgs ops, prop_multi_b cfgs ops (multi cfgs ops) = true.
+Proof. exact multi_satisfies_oracle. Qed.
+Print Assumptions C19_pretty_objects_model_satisfies_oracle.
+
 (* ---- install / restore, for ALL histories of Install k | Restore | foreign calls | Create k |
    Destroy k: several Logger objects (0 = the singleton, others made with the public constructor)
    that come and go; Logger = the one static Logger::messageHandler all of them install ---- *)
@@ -434,4 +458,18 @@ Example C19_nonvacuous_daily :
   lay_obs (layout (ol_fparams src_oneline a) 2 100 [103; 103; 104]) = ([(100, 1%nat, 2%nat); (103, 1%nat, 2%nat)], 1%nat)
   /\ prop_layout_b (ol_want a) 2 100 [103; 103; 104] ([], 5%nat) = false
   /\ prop_layout_b (ol_want a) 2 100 [103; 103; 104] ([(100, 1%nat, 2%nat); (103, 1%nat, 2%nat)], 1%nat) = true.
+Proof. vm_compute. repeat split; reflexivity. Qed.
+(* two PrettyFormatter objects, two threads (7 and 9).  Object 0 sees 7 then 9 then 7, object 1 sees 9 then 7:
+   each numbers the threads in ITS order of first appearance (object 0: 7 -> T0 = blank column, 9 -> T1;
+   object 1: 9 -> blank, 7 -> T1); the first record of each object carries no thread column at all.
+   Records in which object 1 shows no thread column for thread 7 (a registration remembered per thread
+   instead of per object) are rejected by the oracle *)
+Example C19_nonvacuous_two_pretty_objects :
+  let mk tid := {| m_type := Info; m_cat := s_default; m_text := qs "x"; m_tid := tid; m_time := qs "t"; m_day := 0 |} in
+  let cfgs := [(false, 0%nat); (false, 0%nat)] in
+  let ops := [(0%nat, mk 7); (1%nat, mk 9); (0%nat, mk 9); (1%nat, mk 7); (0%nat, mk 7)] in
+  multi cfgs ops = [(0%nat, qs "t I x"); (1%nat, qs "t I x"); (0%nat, qs "t I T1 x"); (1%nat, qs "t I T1 x"); (0%nat, qs "t I    x")]
+  /\ prop_multi_b cfgs ops (multi cfgs ops) = true
+  /\ prop_multi_b cfgs ops [(0%nat, qs "t I x"); (1%nat, qs "t I x"); (0%nat, qs "t I T1 x"); (1%nat, qs "t I x"); (0%nat, qs "t I    x")] = false
+  /\ prop_multi_b cfgs ops [(0%nat, qs "t I x"); (1%nat, qs "t I x"); (0%nat, qs "t I T1 x"); (0%nat, qs "t I    x")] = false.
 Proof. vm_compute. repeat split; reflexivity. Qed.
